@@ -64,7 +64,7 @@ Fixpoint drop_while (p : ascii -> bool) (s : str) : str :=
 Definition drop_ws (s : str) : str := drop_while is_pyspace s.
 Definition all_ws (s : str) : bool := forallb is_pyspace s.
 
-(* split at the LAST occurrence of c: the greedy (.*) followed by a literal c *)
+(* split at the LAST occurrence of c: a greedy dot-star group followed by a literal c *)
 Fixpoint split_last (c : ascii) (s : str) : option (str * str) :=
   match s with
   | [] => None
@@ -102,7 +102,7 @@ Definition lit_match (old new : str) (s : str) : option (str * nat) :=
   end.
 Definition replace_all (old new s : str) : str := resub (lit_match old new) s.
 
-(* re.sub of the pattern ^dq(.*)dq$ by group 1 (dq = the double quote), on a string without newlines *)
+(* re.sub of the pattern ^dq dot-star dq$ by its group (dq = the double quote), on a string without newlines *)
 Definition strip_dq (s : str) : str :=
   match s with
   | q :: r =>
